@@ -29,6 +29,7 @@ struct TimedTaskImpl {
       if (flags.load(std::memory_order_acquire) & kFFlagsCancelled) {
         return;
       }
+      DISPENSO_VERIF_POINT(::dispenso::verif::kTimedAfterCancelTest);
 
       inProgress.fetch_add(1, std::memory_order_acq_rel);
 
